@@ -56,8 +56,62 @@ def showRes : Res → String
   | .str rs => showRunes rs
   | .err c => "err:" ++ c
 
+/-- One row of a statement: `(text patCls patId flagCls flagId rep (ints…) table)`. -/
+def parseRow : Sexp → Option (Row × List (List Match))
+  | .list [text, pat, pid, flags, fid, rep, .list ints, tbl] => do
+    let text ← parseStr text
+    let pat ← parsePat pat
+    let pid ← pid.nat?
+    let flags ← parseFlags flags
+    let fid ← fid.nat?
+    let rep ← parseStr rep
+    let ints ← ints.mapM parseInt
+    let tbl ← parseTbl tbl
+    pure ({ text, pat := (pat, pid), flags := (flags, fid), rep, ints }, tbl)
+  | _ => none
+
+/-- The matcher world of a statement: the table the harness recorded for (pattern, flags, text). -/
+def worldOf (rs : List (Row × List (List Match))) : World := fun k t =>
+  match rs.find? (fun p => decide (p.1.key = k ∧ p.1.text = t)) with
+  | some p => fun i => (p.2[i]?).getD []
+  | none => fun _ => []
+
+def showResList (rs : List Res) : String := "[" ++ " ".intercalate (rs.map showRes) ++ "]"
+
+def parseModes : Sexp → Option Modes
+  | .list [a, b, c, d] => do
+    pure { textConst := (← a.nat?) == 1, patConst := (← b.nat?) == 1, flagsConst := (← c.nat?) == 1, restConst := (← d.nat?) == 1 }
+  | _ => none
+
+/-- A WHERE filter `… AND REGEXP_LIKE(…)` / `REGEXP_INSTR(…) > 0` keeps the row. -/
+def selected : Res → String
+  | .int i => if i > 0 then "1" else "0"
+  | _ => "0"
+
+def showSel (rs : List Res) : String := "[" ++ " ".intercalate (rs.map selected) ++ "]"
+
 def handle (p : List Sexp) : String :=
   match p with
+  | [Sexp.list [Sexp.atom "where", fn, md, Sexp.list rows]] =>
+    match parseFn fn, parseModes md, rows.mapM parseRow with
+    | some fn, some md, some rs =>
+      let W := worldOf rs
+      let rows := rs.map (·.1)
+      if ¬ Respects md rows then answer "bad-case:constant-argument-varies" else
+      answer (showSel (runRows .perRow W fn md Node.fresh rows)) (showSel (rows.map (evalFresh W fn)))
+    | _, _, _ => answer "bad-case"
+  | [Sexp.list [Sexp.atom "seq", fn, md, Sexp.list rows]] =>
+    match parseFn fn, parseModes md, rows.mapM parseRow with
+    | some fn, some md, some rs =>
+      let W := worldOf rs
+      let rows := rs.map (·.1)
+      if ¬ Respects md rows then answer "bad-case:constant-argument-varies" else
+      -- Impl model: the rows through ONE node with the code's discipline; Spec: every row on its own
+      let i := runRows .perRow W fn md Node.fresh rows
+      match regionRows W fn rows with
+      | none => answer (showResList i) (showResList (rows.map (evalFresh W fn)))
+      | some r => answer (showResList i) (showResList (specRows W fn rows)) r
+    | _, _, _ => answer "bad-case"
   | [Sexp.list [Sexp.atom "re", fn, text, pat, flags, rep, Sexp.list ints, tbl]] =>
     match parseFn fn, parseStr text, parsePat pat, parseFlags flags, parseStr rep, ints.mapM parseInt, parseTbl tbl with
     | some fn, some text, some pat, some flags, some rep, some ints, some tbl =>
